@@ -48,6 +48,42 @@ def order_sensitive_module():
     return m
 
 
+def lead_sensitive_module():
+    """Hertz paraboloid whose amplitude depends on how far before the contact point the record starts
+    (delta[0] - contact_point of the approach-ordered abscissa): not a point-wise function of delta, so it is
+    correct only if the function receives the whole abscissa, approach-ordered, in one piece."""
+    m = types.ModuleType("verif_model_lead")
+
+    def get_parameter_defaults():
+        params = lmfit.Parameters()
+        params.add("E", value=3e3, min=0)
+        params.add("R", value=10e-6, min=0, vary=False)
+        params.add("nu", value=.5, min=0, max=0.5, vary=False)
+        params.add("contact_point", value=0)
+        params.add("baseline", value=0)
+        return params
+
+    def model_func(delta, E, R, nu, contact_point=0, baseline=0):
+        lead = max(float(delta[0]) - contact_point, 0.0) if delta.size else 0.0
+        factor = 1.0 + lead / (lead + 1e-6)
+        depth = contact_point - delta
+        depth = np.where(depth > 0, depth, 0.0)
+        return factor * 4 / 3 * E / (1 - nu ** 2) * np.sqrt(R) * depth ** 1.5 + baseline
+
+    m.get_parameter_defaults = get_parameter_defaults
+    m.model_func = model_func
+    m.model_doc = "Hertz with a record-start dependent amplitude (verification harness)"
+    m.model_key = "verif_lead"
+    m.model_name = "verif: lead sensitive"
+    m.parameter_keys = ["E", "R", "nu", "contact_point", "baseline"]
+    m.parameter_names = ["Young's Modulus", "Tip Radius", "Poisson's Ratio", "Contact Point",
+                         "Force Baseline"]
+    m.parameter_units = ["Pa", "m", "", "m", "N"]
+    m.valid_axes_x = ["tip position"]
+    m.valid_axes_y = ["force"]
+    return m
+
+
 def expr_module():
     """Cone model with a second modulus constrained by an expression (E2 = 2*E) and an
     ancillary parameter whose key matches the fit parameter E."""
@@ -91,7 +127,7 @@ def expr_module():
 
 def register_all():
     from nanite import model as nmodel
-    mods = [order_sensitive_module(), expr_module()]
+    mods = [order_sensitive_module(), expr_module(), lead_sensitive_module()]
     for m in mods:
         nmodel.register_model(m)
     return mods
